@@ -1,6 +1,7 @@
 import KoordVerif.Model.C17
 import KoordVerif.Model.C17Cache
 import KoordVerif.Model.C17Arb
+import KoordVerif.Model.C17Scav
 import KoordVerif.Generated.C17
 /-
 Tie lemmas: the guard order the model assumes is the guard order of /repo's current controller.go
@@ -85,5 +86,39 @@ theorem tie_create_handler_guard : KoordVerif.Generated.C17.createHandlerSteps =
 /-- the model's guard is the same three phases: Succeeded (3), Failed (4), Aborted (5) -/
 theorem tie_create_handler_guard_phases :
     ∀ p, p < 7 → finPh p = (p == Ph.succeeded || p == Ph.failed || p == 5) := by decide
+
+/-! ### ext5 — the scavenger and the created-by stamp -/
+
+/-- `doScavenge`, the body of its loop over the LISTed jobs: the timeout (30 min; TTL + 5 min when a TTL > 0 is set), the
+    ONLY skip (`continue`) is "not yet past the timeout" — no test of the created-by annotation —, then deleteReservation
+    (anything but NotFound ends the round), then the job Delete (model: `scavenge false`) -/
+def scavengeStepsModel : List String :=
+  ["timeoutDuration = 30 * time.Minute",
+   "if v.Spec.TTL != nil && v.Spec.TTL.Duration > 0 -> assign",
+   "timeoutDuration = v.Spec.TTL.Duration + 5*time.Minute",
+   "if r.clock.Since(v.CreationTimestamp.Time) < timeoutDuration -> continue",
+   "deleteReservation",
+   "if !errors.IsNotFound(err) -> break",
+   "Delete"]
+
+theorem tie_scavenge_steps : KoordVerif.Generated.C17.scavengeSteps = scavengeStepsModel := by rfl
+
+/-- the model's constants are those: 30 min and 5 min in seconds; a job with TTL t > 0 is scavenged from t + 300 s on -/
+theorem tie_scavenge_timeout : scavDefault = 30 * 60 ∧ scavGrace = 5 * 60 ∧ scavTimeout 0 = 1800 ∧
+    (∀ t, 0 < t → scavTimeout t = t + 300) := by
+  refine ⟨by decide, by decide, by decide, ?_⟩
+  intro t ht
+  simp [scavTimeout, scavGrace, ht]
+
+/-- the created-by stamp: `CreatePodMigrationJob` writes the uid it is handed, `Evict` hands over the instance's own uid,
+    `New` draws a fresh uid per instance, and `Reconcile` returns early for a job stamped with another uid (model:
+    `createdJob`, `Op.restart`, the first line of `reconcile`) -/
+def createdByFactsModel : List String :=
+  ["annotation = string(reconcilerUID)",
+   "Evict passes r.reconcilerUID",
+   "New: reconcilerUID = UUIDGenerateFn()",
+   "Reconcile: jobUID, ok := job.Annotations[AnnotationJobCreatedBy]; if ok && jobUID != string(r.reconcilerUID) -> return=true"]
+
+theorem tie_created_by_stamp : KoordVerif.Generated.C17.createdByFacts = createdByFactsModel := by rfl
 
 end KoordVerif.C17
